@@ -533,7 +533,18 @@ func c12placement(rep *vh.Report, r *vh.RNG, kind, point string, k int, consumer
 	}
 	closed := make(chan struct{})
 	go func() { env.node.Close(); close(closed) }()
-	if delay > 0 {
+	if reached && point != "" && point != "api.write" && delay >= time.Millisecond {
+		// the goroutine held at the trap is one the node started: as long as it is held, Close cannot have "ended every
+		// goroutine the node started", so it must not return (a grace period after Close would hide a goroutine that
+		// is merely late)
+		select {
+		case <-closed:
+			rep.Violation("what=close-early@"+point, "Node.Close returned while a goroutine the node had started was still held inside the library (at the named point)",
+				map[string]interface{}{"scenario": kind, "close_placed_at": where, "held_for": "the whole call"})
+		case <-time.After(80 * time.Millisecond):
+		}
+		rep.Count("placements_with_goroutine_held_across_close", 1)
+	} else if delay > 0 {
 		time.Sleep(delay)
 	}
 	release()
